@@ -391,6 +391,7 @@ async fn add_columns_from_stream(
 ) -> Result<Vec<Fragment>> {
     let mut new_fragments = Vec::with_capacity(fragments.len());
     let mut last_seen_batch: Option<RecordBatch> = None;
+    let output_schema = stream.schema();
     for fragment in fragments {
         let mut updater = fragment
             .updater::<String>(Some(&[]), schemas.clone(), batch_size)
@@ -426,8 +427,12 @@ async fn add_columns_from_stream(
                 }
             }
 
-            let new_batch =
-                arrow_select::concat::concat_batches(&batches[0].schema(), batches.iter())?;
+            // A batch whose rows are all deleted takes nothing from the stream: `batches` is empty
+            let batch_schema = batches
+                .first()
+                .map(|b| b.schema())
+                .unwrap_or_else(|| output_schema.clone());
+            let new_batch = arrow_select::concat::concat_batches(&batch_schema, batches.iter())?;
 
             updater.update(new_batch).await?;
         }
